@@ -612,13 +612,17 @@ def np_index(d):
     raise AssertionError(d)
 
 
-def _int_as(i, npint):
-    """i as Python int (0), np.int64 (1) or the narrowest signed NumPy integer that holds it (2)."""
+def _int_as(i, npint, length=0):
+    """i as Python int (0), np.int64 (1) or the narrowest signed NumPy integer (2) that holds i and
+    i +- length: NumPy itself normalises a negative index as ``index + length`` in the dtype of the index
+    (``np.delete(np.zeros(132), np.int8(-5))`` raises OverflowError), so a narrower type is not an
+    index value NumPy accepts for that axis."""
     if not npint:
         return int(i)
     if npint % 2:
         return np.int64(i)
-    return np.int8(i) if -128 <= i <= 127 else np.int16(i) if -(2**15) <= i < 2**15 else np.int64(i)
+    top = abs(int(i)) + int(length)
+    return np.int8(i) if top <= 127 else np.int16(i) if top < 2**15 else np.int64(i)
 
 
 def zero_d_lenient(mcall):
@@ -1062,7 +1066,7 @@ class Interp:
             i = raw % (2 * length) - length
             lab = "neg" if i < 0 else "pos"
         real = s.real
-        ix = _int_as(i, npint)
+        ix = _int_as(i, npint, length)
 
         def rcall():
             del real[ix]
@@ -1119,7 +1123,7 @@ class Interp:
                 else:
                     d = ("int", raw % (2 * mc.n) - mc.n)
                     self.o.label("set:atom:neg" if d[1] < 0 else "set:atom:pos")
-                ix = _int_as(d[1], npint)
+                ix = _int_as(d[1], npint, mc.n)
                 self.o.label("set:index_type=" + type(ix).__name__)
 
             def rcall():
@@ -1137,7 +1141,7 @@ class Interp:
                     arr.box = DEFAULT_BOX
             if bad:
                 j = mc.m + raw % 2
-            jx = _int_as(j, npint)
+            jx = _int_as(j, npint, mc.m)
             self.o.label("set:index_type=" + type(jx).__name__)
             arr.coord = shift_coords(arr.coord, shift)
             if arr.box is not None:
